@@ -4,6 +4,7 @@ CONSTANTS
   MaxVer = 2
   MaxPin = 2
   FixDealloc = FALSE
+  Races = FALSE
 SPECIFICATION Spec
 INVARIANTS ReplacerPinFree
 PROPERTIES Coherent PinSafe FreshId
